@@ -43,7 +43,7 @@ CHECKS.update({
 CHECKS.update({
     "C04": dict(
         technique="property-based testing with an external differential oracle: ctypes Structure/Union with identical members (C ABI) plus the independent reference layout; exhaustive enumeration of all short field sequences; five-way size agreement",
-        text="exhaustive enumeration of every sequence of <=3 (quick) / <=4 (thorough) fields over 12 kinds in packed and aligned mode and Hypothesis-generated nested definitions, each compared member by member against ctypes (sizeof, alignment, offsets) and against the reference layout; len(T), sizeof(T) in an expression, bytes consumed, len(T().dumps()) and len(parsed.dumps()) must all equal the reference size",
+        text="exhaustive enumeration of every sequence of <=3 (quick) / <=4 (thorough) fields over 12 kinds in packed and aligned mode and Hypothesis-generated nested definitions, each compared member by member against ctypes (sizeof, alignment, offsets) and against the reference layout; definitions with dynamically sized members are compared with the reference layout too (alignment of every structure, offsets in front of the first dynamic member); len(T), sizeof(T) in an expression, bytes consumed, len(T().dumps()) and len(parsed.dumps()) must all equal the reference size",
         design_ref="DESIGN.md §4 C04",
     ),
 })
@@ -56,7 +56,7 @@ CHECKS.update({
     ),
     "C07": dict(
         technique="property-based testing: Hypothesis array-heavy definitions and stand-alone array types against the independent reference decoder/encoder; metamorphic ragged-tail cases for x[EOF]; negative class of wrong-length dumps",
-        text="generated search over element kinds x the four length forms (field arrays in both readers, stand-alone cs.T[n]/cs.T[None], multi-dimensional, null-terminated arrays of all-integer structures, expression lengths incl. negative results), element count/contents/consumed bytes/terminator checked against the reference; x[EOF] over ragged tails may raise but never returns a partial element; fixed arrays dumped with len != n must raise",
+        text="generated search over element kinds x the four length forms (field arrays in both readers, stand-alone cs.T[n]/cs.T[None], multi-dimensional, null-terminated arrays of all-integer structures, expression lengths incl. negative results), element count/contents/consumed bytes/terminator checked against the reference; x[EOF] over ragged tails may raise but never returns a partial element; fixed arrays dumped with len != n must raise; float arrays terminated by either spelling of zero (+0.0 / -0.0) are enumerated",
         design_ref="DESIGN.md §4 C07",
     ),
 })
@@ -96,7 +96,7 @@ CHECKS.update({
 CHECKS.update({
     "C17": dict(
         technique="property-based testing: generated structures with same-field-count sibling classes alive, instance pairs (equal / differing in one field / other class), constructor splits and single-field assignments, against the reference zero values and reference encodings; exhaustive field counts 0..12",
-        text="generated search over definitions x instance pairs x constructor argument splits x assignments: == must hold exactly for same class and equal fields, hash must agree on equal instances, bool must be any-field-truthy, T(*pos, **kw) must equal default+setattr with reference zero values elsewhere, and dumps before/after an assignment must equal the reference encodings of the old/new tree (locality); every field count 0..12 enumerated in three name orders",
+        text="generated search over definitions x instance pairs x constructor argument splits x assignments: == must hold exactly for same class and equal fields, hash must agree on equal instances, bool must be any-field-truthy, T(*pos, **kw) must equal default+setattr with reference zero values elsewhere, and dumps before/after an assignment must equal the reference encodings of the old/new tree (locality); every field count 0..12 enumerated in three name orders; structure values reached through unions are checked for truth / == / hash against the value computed from the reference",
         design_ref="DESIGN.md §4 C17",
     ),
 })
@@ -120,7 +120,7 @@ CHECKS.update({
 CHECKS.update({
     "C11": dict(
         technique="model-based property testing: generated fixed-size unions and assignment histories checked against a one-bytearray reference model (decode of every member view and reference encoding of the assigned member) after every step",
-        text="generated unions (scalar/array/nested struct/anonymous struct/nested union/bit-field members, packed and aligned, top-level and embedded) x contents x histories of whole-member, nested-path, anonymous-field and keyword assignments and re-parses; after every step all member views must equal the reference decode of one shared buffer, the assigned member's bytes must be exactly its reference encoding, size == consumed == max member size rounded to the alignment, and dumps must reproduce the buffer on data-carrying bits (the recorded union-writer finding is judged against a writer-faithful model)",
+        text="generated unions (scalar/array/nested struct/anonymous struct/nested union/bit-field members, packed and aligned, top-level and embedded) x contents x histories of whole-member, nested-path, anonymous-field and keyword assignments and re-parses (a third of the top-level unions are declared without their last members, used, and completed through add_field first; a quarter are loaded under another byte order which is then switched); after every step all member views must equal the reference decode of one shared buffer, the assigned member's bytes must be exactly its reference encoding, size == consumed == max member size rounded to the alignment, and dumps must reproduce the buffer on data-carrying bits (the recorded union-writer finding is judged against a writer-faithful model)",
         design_ref="DESIGN.md §4 C11",
     ),
 })
@@ -128,8 +128,8 @@ CHECKS.update({
 CHECKS.update({
     "C15": dict(
         engine="sched-linetrace",
-        technique="systematic schedule exploration inside property-based testing: a harness-owned line-level scheduler (sys.settrace + baton) makes thread interleavings generated data; every single-preemption schedule is enumerated per generated definition, multi-preemption schedules are drawn by Hypothesis; oracle = solo result per thread",
-        text="for each generated definition (expression-length arrays, bit-fields, unions, pointers; compiled and interpreted) 2-3 real threads parse and dump their own bytes with the shared types under a deterministic scheduler: all single-preemption schedules at source-line granularity are enumerated, schedules with up to 4 preemptions are generated; every thread must obtain exactly its solo result",
+        technique="systematic schedule exploration inside property-based testing: a harness-owned scheduler (sys.settrace line events or sys.monitoring instruction events + baton) makes thread interleavings generated data; every single-preemption schedule is enumerated per generated definition at line and at bytecode-instruction granularity and for the first (cold) use of a fixed definition family, every two-preemption schedule of that family is enumerated, multi-preemption schedules are drawn by Hypothesis; oracle = solo result per thread",
+        text="for each generated definition (expression-length arrays, bit-fields, unions, pointers; compiled and interpreted) 2-3 real threads parse and dump their own bytes with the shared types under a deterministic scheduler: all single-preemption schedules at source-line granularity are enumerated (also at bytecode-instruction granularity for further definitions, and for the very first use of freshly loaded types of a fixed six-definition family), every two-preemption schedule 0->1->0 of that family is enumerated, schedules with up to 4 preemptions are generated; every thread must obtain exactly its solo result",
         design_ref="DESIGN.md §4 C15",
     ),
 })
@@ -200,7 +200,7 @@ def main():
         },
         "engines": [
             {"name": "pbt-hypothesis", "path": "pbt/drive.py", "serves_properties": sorted(CHECKS), "kind_free_text": "sharded Hypothesis search + exhaustive small-scope enumeration with explicit oracles, replay files, known-finding predicates"},
-            {"name": "sched-linetrace", "path": "pbt/sched.py", "serves_properties": ["C15"], "kind_free_text": "deterministic line-level thread scheduler (sys.settrace + per-thread semaphores); schedules are generated/enumerated data"},
+            {"name": "sched-linetrace", "path": "pbt/sched.py", "serves_properties": ["C15"], "kind_free_text": "deterministic thread scheduler at source-line (sys.settrace) or bytecode-instruction (sys.monitoring) granularity with per-thread semaphores; schedules are generated/enumerated data"},
             {"name": "refsem", "path": "pbt/refsem.py", "serves_properties": [], "kind_free_text": "independent reference semantics (layout, decode with data mask, encode, defaults)"},
         ],
         "checks": checks,
